@@ -59,6 +59,8 @@ type Finding struct {
 	Detail  string `json:"detail"`
 	// Replay holds whatever the replay command needs to re-execute the witness.
 	Replay any `json:"replay,omitempty"`
+	// Tier is the tier of the run that found it (a replay must explore at the same granularity).
+	Tier string `json:"tier,omitempty"`
 }
 
 type knownEntry struct {
@@ -117,7 +119,7 @@ func (r *Report) Add(key, detail string, witness, replay any) bool {
 	if _, ok := r.findings[key]; ok {
 		return false
 	}
-	r.findings[key] = &Finding{Property: r.Property, Key: key, Witness: witness, Detail: detail, Replay: replay}
+	r.findings[key] = &Finding{Property: r.Property, Key: key, Witness: witness, Detail: detail, Replay: replay, Tier: Tier()}
 	r.order = append(r.order, key)
 	return true
 }
